@@ -1,12 +1,108 @@
-(* C11 — Instance identity: same instance handle exactly when key fields are equal.
-   Property file: statements, `exact`, non-vacuity, assumptions. *)
-From DustDDS Require Import Base.Machine KeyHash.Md5Model KeyHash.KeyModel KeyHash.KeyProofs.
+(* C11 — Instance identity: same instance handle exactly when key fields are equal; the
+   handle a writer assigns equals the handle the reader derives, with or without key hash.
+   Property file: statements, `exact`, non-vacuity, assumptions.
+
+   Vocabulary (KeyHash/KeyModel.v): `instance_handle t d` is
+   get_instance_handle_from_dynamic_data on a sample d of the keyed type t;
+   `key_vals_ty t d` are the values of the key members of d (depth first through non-key
+   nested structures); `key_type_ok t`: the key members lie in the supported fragment (no
+   optional / MUTABLE / nested-collection key members, ids unique inside every structure);
+   `key_ids_unique t`: no two members of the flattened key holder share a member id;
+   `key_ok t d`: the key members hold in-range, in-bound values. *)
+From DustDDS Require Import Base.Machine KeyHash.Md5Model KeyHash.KeyModel KeyHash.KeyProofs
+  KeyHash.KeyMainProofs KeyHash.KeyReaderProofs KeyHash.KeyTotalProofs.
 Open Scope Z_scope.
 
 (* <= : two samples with equal key members get the same handle, whatever their other
-   members hold (unconditional: any type, any data, errors included) *)
+   members hold (unconditional: any type, any data, error results included) *)
 Theorem C11_equal_keys_equal_handles :
   forall t d1 d2, key_vals_ty t d1 = key_vals_ty t d2 -> instance_handle t d1 = instance_handle t d2.
 Proof. exact handle_eq_of_key_eq. Qed.
 
+(* => : two samples with the same handle have equal key members, unless their two
+   (different) serialized keys are an explicit MD5 coincidence; outside the collision
+   class *)
+Theorem C11_equal_handles_equal_keys_unless_md5_coincidence :
+  forall t d1 d2 h,
+    key_type_ok t = true -> key_ids_unique t = true ->
+    key_ok t d1 = true -> key_ok t d2 = true ->
+    instance_handle t d1 = Ok h -> instance_handle t d2 = Ok h ->
+    key_vals_ty t d1 = key_vals_ty t d2 \/
+    exists b1 b2, key_bytes t d1 = Ok b1 /\ key_bytes t d2 = Ok b2 /\ md5_coincidence b1 b2.
+Proof. exact key_eq_of_handle_eq. Qed.
+
+(* every well-formed key is assigned a 16-byte handle *)
+Theorem C11_wellformed_key_gets_a_handle :
+  forall t d, key_type_ok t = true -> key_ids_unique t = true -> key_ok t d = true ->
+    exists h, instance_handle t d = Ok h /\ length h = 16%nat.
+Proof. exact handle_total. Qed.
+
+(* inside the collision class => is false: recorded finding C11-key-id-collision *)
+Theorem C11_id_collision_class_refutes_equal_handles_equal_keys :
+  exists t d1 d2 h,
+    key_type_ok t = true /\ key_ids_unique t = false /\
+    key_ok t d1 = true /\ key_ok t d2 = true /\
+    instance_handle t d1 = Ok h /\ instance_handle t d2 = Ok h /\
+    key_vals_ty t d1 <> key_vals_ty t d2.
+Proof. exact key_eq_of_handle_eq_refuted. Qed.
+
+(* reader side, serialized key without key hash: deriving the handle from the decoded key
+   holder gives the writer's handle (every type, collisions included) *)
+Theorem C11_reader_derivation_from_key_equals_writer_handle :
+  forall t d kd, key_holder_data t d = Ok kd -> reader_handle_from_key t kd = instance_handle t d.
+Proof. exact reader_key_derivation. Qed.
+
+(* the whole reader side (communication_methods.rs / builtin_data_reader.rs), with and
+   without PID_KEY_HASH, sample and serialized key, over any codec that returns what it was
+   given (round trip: property C09) *)
+Theorem C11_writer_and_reader_agree :
+  forall (decode_sample decode_key : ty -> list Z -> option fields)
+         (encode_sample encode_key : ty -> fields -> list Z),
+  (forall t d, decode_sample t (encode_sample t d) = Some d) ->
+  (forall t kd, decode_key (key_holder_ty t) (encode_key t kd) = Some kd) ->
+  forall t d kd h,
+    instance_handle t d = Ok h -> key_holder_data t d = Ok kd ->
+    (forall alive payload, reader_handle decode_sample decode_key t alive (Some h) payload = Ok h) /\
+    reader_handle decode_sample decode_key t true None (encode_sample t d) = Ok h /\
+    reader_handle decode_sample decode_key t false None (encode_key t kd) = Ok h.
+Proof. exact writer_reader_agree. Qed.
+
+(* the boolean the correspondence oracle uses for "the key members are equal" *)
+Theorem C11_oracle_sound :
+  forall t d1 d2 vs1 vs2, key_vals_ty t d1 = Ok vs1 -> key_vals_ty t d2 = Ok vs2 ->
+    (keys_eqb t d1 d2 = true <-> key_vals_ty t d1 = key_vals_ty t d2).
+Proof. exact keys_eqb_iff. Qed.
+
+(* non-vacuity: struct T { a: Inner{ #[key] id: u8 (id 10) } (id 0); #[key] name: string (id 1);
+   #[key] pos: [u16; 2] (id 2); other: i32 (id 3) } — nested key, string key, array key;
+   the two samples differ in the non-key member only / in the string key *)
+Definition ex_t : ty :=
+  TStruct Final
+    (MCons 0 false false (TStruct Final (MCons 10 true false (TPrim PU8) MNil))
+    (MCons 1 true false (TStr 0)
+    (MCons 2 true false (TArr (TPrim PU16) [2])
+    (MCons 3 false false (TPrim PI32) MNil)))).
+Definition ex_d (name : list Z) (other : Z) : fields :=
+  FCons 0 (VStruct (FCons 10 (VPrim SU8 1) FNil))
+  (FCons 1 (VStr name)
+  (FCons 2 (VSeqPrim SU16 [3; 4])
+  (FCons 3 (VPrim SI32 other) FNil))).
+
+Example C11_nonvacuous :
+  key_type_ok ex_t = true /\ key_ids_unique ex_t = true /\
+  key_ok ex_t (ex_d [97; 98] 5) = true /\ key_ok ex_t (ex_d [97; 99] 5) = true /\
+  key_vals_ty ex_t (ex_d [97; 98] 5) = key_vals_ty ex_t (ex_d [97; 98] (-7)) /\
+  instance_handle ex_t (ex_d [97; 98] 5) = Ok [1;0;0;0;0;0;0;3;97;98;0;0;0;3;0;4] /\
+  instance_handle ex_t (ex_d [97; 98] (-7)) = Ok [1;0;0;0;0;0;0;3;97;98;0;0;0;3;0;4] /\
+  instance_handle ex_t (ex_d [97; 99] 5) = Ok [1;0;0;0;0;0;0;3;97;99;0;0;0;3;0;4] /\
+  (kd <- key_holder_data ex_t (ex_d [97; 98] 5) ;; reader_handle_from_key ex_t kd)
+    = Ok [1;0;0;0;0;0;0;3;97;98;0;0;0;3;0;4].
+Proof. repeat (match goal with |- _ /\ _ => split end); vm_compute; reflexivity. Qed.
+
 Print Assumptions C11_equal_keys_equal_handles.
+Print Assumptions C11_equal_handles_equal_keys_unless_md5_coincidence.
+Print Assumptions C11_wellformed_key_gets_a_handle.
+Print Assumptions C11_id_collision_class_refutes_equal_handles_equal_keys.
+Print Assumptions C11_reader_derivation_from_key_equals_writer_handle.
+Print Assumptions C11_writer_and_reader_agree.
+Print Assumptions C11_oracle_sound.
